@@ -59,15 +59,17 @@ def m_show(a) -> str:
 
 # ------------------------------------------------------------------ types
 class Seg:
-    __slots__ = ("size", "label", "poly")
+    __slots__ = ("size", "label", "poly", "comp")
 
-    def __init__(self, size, label=ONE, poly=False):
+    def __init__(self, size, label=ONE, poly=False, comp=None):
         self.size = size  # nf polynomial
         self.label = label
         self.poly = poly  # a block of literal zeros: unit-polymorphic
+        self.comp = comp  # ordered composite axis: names of the factors, major -> minor (e.g. ('n', 'd'))
 
     def __repr__(self):
-        return f"{nf.show(self.size)}:{'*' if self.poly else m_show(self.label)}"
+        c = f"<{'.'.join(self.comp)}>" if self.comp else ""
+        return f"{nf.show(self.size)}{c}:{'*' if self.poly else m_show(self.label)}"
 
 
 class Axis:
@@ -96,7 +98,11 @@ class Axis:
         return self.segs[0].label
 
     def relabel(self, f):
-        return Axis(Seg(s.size, f(s.label), s.poly) for s in self.segs)
+        return Axis(Seg(s.size, f(s.label), s.poly, s.comp) for s in self.segs)
+
+    @property
+    def comp(self):
+        return self.segs[0].comp if len(self.segs) == 1 else None
 
     def __repr__(self):
         return "(" + " + ".join(map(repr, self.segs)) + ")"
@@ -267,6 +273,9 @@ class AEnv:
             if op.endswith("_like"):
                 t = self.need(a[0])
                 axes = [Axis(Seg(s.size, ONE) for s in ax.segs) for ax in t.axes]
+            elif isinstance(a[0], T.Term) and a[0].op == "attr" and a[0].args[1] == "shape":
+                t = self.need(a[0].args[0])
+                axes = [Axis(Seg(s.size, ONE) for s in ax.segs) for ax in t.axes]
             else:
                 shp = a[0] if isinstance(a[0], (tuple, list)) else (a[0],)
                 sizes = [self.dim_of(s) for s in shp]
@@ -274,6 +283,8 @@ class AEnv:
                     raise _Unknown("shape of zeros/ones")
                 axes = [axis(s) for s in sizes]
             return AT(axes, ONE, zero=op.startswith("np.zeros"))
+        if False:
+            pass
         if op == "np.eye":
             n = self.dim_of(a[0])
             m = self.dim_of(a[1]) if len(a) > 1 and a[1] is not None else n
@@ -342,6 +353,12 @@ class AEnv:
             t = self.need(a[0])
             if t.rank != 1:
                 raise _Unknown("diagonal_matrix of non-vector")
+            k = v.kwargs.get("k", a[1] if len(a) > 1 else 0)
+            if k != 0:
+                if not isinstance(k, int):
+                    raise _Unknown("diagonal offset")
+                sz = nf.add(t.axes[0].size, nf.const(abs(k)))
+                return AT([axis(sz), axis(sz)], t.scalar, t.zero)
             return AT([t.axes[0], Axis(Seg(s.size, ONE) for s in t.axes[0].segs)], t.scalar, t.zero)
         if op in ("np.einsum", "linalg.einsum"):
             return self._einsum(v, a[0], [self.need(x) for x in a[1:]])
@@ -383,8 +400,31 @@ class AEnv:
             k = self.dim_of(a[1])
             if t.rank != 1 or k is None:
                 raise _Unknown("repeat")
-            # np.repeat(p, d): every entry repeated d times in place -> coefficient-major composite axis (n . d)
-            return AT([Axis([Seg(nf.mul(t.axes[0].size, k), t.axes[0].label)])], t.scalar)
+            # np.repeat(p, d): every entry repeated d times in place -> composite axis (n major, d minor)
+            return AT([Axis([Seg(nf.mul(t.axes[0].size, k), t.axes[0].label, comp=(nf.show(t.axes[0].size), nf.show(k)))])], t.scalar)
+        if op == "np.tile":
+            t = self.need(a[0])
+            k = self.dim_of(a[1])
+            if t.rank != 1 or k is None:
+                raise _Unknown("tile")
+            # np.tile(p, d): the whole vector repeated d times -> composite axis (d major, n minor)
+            return AT([Axis([Seg(nf.mul(t.axes[0].size, k), t.axes[0].label, comp=(nf.show(k), nf.show(t.axes[0].size)))])], t.scalar)
+        if op == "np.kron":
+            x, y = self.need(a[0]), self.need(a[1])
+            if x.rank != y.rank:
+                raise _Unknown("kron of different ranks")
+            axes = []
+            for p_, q_ in zip(x.axes, y.axes):
+                axes.append(Axis([Seg(nf.mul(p_.size, q_.size), m_mul(p_.label, q_.label), comp=(nf.show(p_.size), nf.show(q_.size)))]))
+            return AT(axes, m_mul(x.scalar, y.scalar), x.zero or y.zero)
+        if op == "at_set":
+            return self.need(a[0])
+        if op == "tree.ravel" and isinstance(a[0], (list, tuple)) and a[0]:
+            parts = [self.need(T.mk("tree.ravel", (c,))) if not isinstance(c, T.Term) or c.op != "tree.ravel" else self.need(c) for c in a[0]]
+            first = parts[0]
+            if first.rank != 1:
+                raise _Unknown("ravel of non-vector leaves")
+            return AT([Axis([Seg(nf.mul(nf.const(len(parts)), first.axes[0].size), first.axes[0].label, comp=(str(len(parts)), nf.show(first.axes[0].size)))])], first.scalar)
         raise _Unknown(f"primitive {op}")
 
     # ------------------------------------------------------------ helpers
@@ -660,7 +700,8 @@ class AEnv:
             if len(labelled) > 1 or any(not ax.uniform for ax in t.axes):
                 raise _Unknown("flatten of a multiply-labelled array")
             lab = labelled[0].label if labelled else ONE
-            return AT([Axis([Seg(total, lab)])], t.scalar, t.zero)
+            comp = tuple(nf.show(ax.size) for ax in t.axes) if t.rank > 1 else (t.axes[0].comp if t.rank == 1 else None)
+            return AT([Axis([Seg(total, lab, comp=comp)])], t.scalar, t.zero)
         sizes = []
         for s in shp:
             sizes.append(None if s == -1 else self.dim_of(s))
@@ -673,6 +714,21 @@ class AEnv:
         if None in sizes:
             sizes[sizes.index(None)] = nf.mul(total, nf.power(known, -1))
         if all(ax.uniform and ax.label == ONE for ax in t.axes):
+            # group consecutive source axes into each target axis (row-major) to remember the factor order
+            out_axes, i = [], 0
+            ok = True
+            for s_ in sizes:
+                prod, names = nf.const(1), []
+                while i < t.rank and prod != s_:
+                    prod = nf.mul(prod, t.axes[i].size)
+                    names.append(nf.show(t.axes[i].size))
+                    i += 1
+                if prod != s_:
+                    ok = False
+                    break
+                out_axes.append(Axis([Seg(s_, ONE, comp=tuple(names) if len(names) > 1 else None)]))
+            if ok and i == t.rank:
+                return AT(out_axes, t.scalar, t.zero)
             return AT([axis(s) for s in sizes], t.scalar, t.zero)
         # reshape that only inserts / removes size-1 axes keeps labels
         big_old = [ax for ax in t.axes if not is_one(ax.size)]
